@@ -138,6 +138,8 @@ type c09Case struct {
 	Ops    []int     `json:"ops"`
 	Leaves []c09leaf `json:"leaves"`
 	Time   *c09Time  `json:"time,omitempty"`
+	Tree   *c09tnode `json:"tree,omitempty"` // nested time arithmetic
+	Zone   int       `json:"zone,omitempty"`
 }
 
 func (c c09Case) build() (e influxql.Expr, r1, all map[string]interface{}) {
@@ -222,6 +224,9 @@ func c09sigOf(c c09Case) string {
 func c09eval(c c09Case) []ev.Finding {
 	if c.Time != nil {
 		return c09evalTime(c)
+	}
+	if c.Tree != nil {
+		return c09evalTree(c)
 	}
 	e, r1, all := c.build()
 	text := e.String()
@@ -382,6 +387,217 @@ func c09evalTime(c c09Case) []ev.Finding {
 	return out
 }
 
+// ---- nested time arithmetic ------------------------------------------------------------------
+//
+// Trees of depth <= 2 over instants (T), durations (D) and small integers (K) with the typing
+//   T+D, D+T, T-D -> T;  T-T -> D;  D+D, D-D -> D;  D*K, K*D, D/K -> D (K = 0: zero);  T cmp T, D cmp D -> bool
+// and exact int64 nanosecond arithmetic as the reference. A tree without * and / must fold completely; with them
+// Reduce may leave a node alone, but whatever it folds must be exact.
+
+type c09tnode struct {
+	Leaf  string    `json:"leaf,omitempty"` // "T", "D", "K"
+	Idx   int       `json:"idx,omitempty"`
+	Op    int       `json:"op,omitempty"` // index into c09tops
+	L, R  *c09tnode `json:",omitempty"`
+	Paren bool      `json:"paren,omitempty"`
+}
+
+var c09tops = []influxql.Token{influxql.ADD, influxql.SUB, influxql.MUL, influxql.DIV, influxql.EQ, influxql.NEQ, influxql.LT, influxql.LTE, influxql.GT, influxql.GTE}
+var c09tT = []int{0, 3, 5, 6} // indices into c09instants: fixed offset, zone-dependent date, zone-dependent fractional, now()
+var c09tD = []time.Duration{time.Hour, -90 * time.Minute, 1}
+var c09tK = []int64{2, 0, -3}
+
+type c09tval struct {
+	kind byte // 'T', 'D', 'K', 'B'
+	n    int64
+	b    bool
+}
+
+func (n *c09tnode) hasMulDiv() bool {
+	if n.Leaf != "" {
+		return false
+	}
+	return n.Op == 2 || n.Op == 3 || n.L.hasMulDiv() || n.R.hasMulDiv()
+}
+
+func (n *c09tnode) expr() influxql.Expr {
+	var e influxql.Expr
+	switch n.Leaf {
+	case "T":
+		e = c09instants[c09tT[n.Idx]].expr()
+	case "D":
+		e = &influxql.DurationLiteral{Val: c09tD[n.Idx]}
+	case "K":
+		e = &influxql.IntegerLiteral{Val: c09tK[n.Idx]}
+	default:
+		e = &influxql.BinaryExpr{Op: c09tops[n.Op], LHS: n.L.expr(), RHS: n.R.expr()}
+	}
+	if n.Paren {
+		e = &influxql.ParenExpr{Expr: e}
+	}
+	return e
+}
+
+// eval is the exact reference; ok=false means ill-typed under the rule above.
+func (n *c09tnode) eval(zone *time.Location) (c09tval, bool) {
+	switch n.Leaf {
+	case "T":
+		return c09tval{kind: 'T', n: c09instants[c09tT[n.Idx]].nanos(zone)}, true
+	case "D":
+		return c09tval{kind: 'D', n: int64(c09tD[n.Idx])}, true
+	case "K":
+		return c09tval{kind: 'K', n: c09tK[n.Idx]}, true
+	}
+	l, ok := n.L.eval(zone)
+	if !ok {
+		return c09tval{}, false
+	}
+	r, ok := n.R.eval(zone)
+	if !ok {
+		return c09tval{}, false
+	}
+	op := c09tops[n.Op]
+	switch {
+	case op == influxql.ADD && l.kind == 'T' && r.kind == 'D', op == influxql.ADD && l.kind == 'D' && r.kind == 'T':
+		return c09tval{kind: 'T', n: l.n + r.n}, true
+	case op == influxql.SUB && l.kind == 'T' && r.kind == 'D':
+		return c09tval{kind: 'T', n: l.n - r.n}, true
+	case op == influxql.SUB && l.kind == 'T' && r.kind == 'T':
+		return c09tval{kind: 'D', n: l.n - r.n}, true
+	case op == influxql.ADD && l.kind == 'D' && r.kind == 'D':
+		return c09tval{kind: 'D', n: l.n + r.n}, true
+	case op == influxql.SUB && l.kind == 'D' && r.kind == 'D':
+		return c09tval{kind: 'D', n: l.n - r.n}, true
+	case op == influxql.MUL && ((l.kind == 'D' && r.kind == 'K') || (l.kind == 'K' && r.kind == 'D')):
+		return c09tval{kind: 'D', n: l.n * r.n}, true
+	case op == influxql.DIV && l.kind == 'D' && r.kind == 'K':
+		if r.n == 0 {
+			return c09tval{kind: 'D'}, true
+		}
+		return c09tval{kind: 'D', n: l.n / r.n}, true
+	case n.Op >= 4 && l.kind == r.kind && (l.kind == 'T' || l.kind == 'D'):
+		var b bool
+		switch op {
+		case influxql.EQ:
+			b = l.n == r.n
+		case influxql.NEQ:
+			b = l.n != r.n
+		case influxql.LT:
+			b = l.n < r.n
+		case influxql.LTE:
+			b = l.n <= r.n
+		case influxql.GT:
+			b = l.n > r.n
+		case influxql.GTE:
+			b = l.n >= r.n
+		}
+		return c09tval{kind: 'B', b: b}, true
+	}
+	return c09tval{}, false
+}
+
+func (v c09tval) String() string {
+	switch v.kind {
+	case 'T':
+		return fmt.Sprintf("time:%d", v.n)
+	case 'D':
+		return fmt.Sprintf("duration:%d", v.n)
+	case 'B':
+		return fmt.Sprintf("bool:%v", v.b)
+	}
+	return fmt.Sprintf("int:%d", v.n)
+}
+
+func c09evalTree(c c09Case) []ev.Finding {
+	zone := c09zones[c.Zone]
+	want, ok := c.Tree.eval(zone)
+	if !ok {
+		return nil
+	}
+	e := c.Tree.expr()
+	zn := "UTC(nil)"
+	if zone != nil {
+		zn = zone.String()
+	}
+	wit := fmt.Sprintf("%s  [zone %s, now=%s]", e.String(), zn, c09now.Format(time.RFC3339Nano))
+	var red, red2 influxql.Expr
+	valuer := &influxql.NowValuer{Now: c09now, Location: zone}
+	if p, st := try(func() {
+		red = influxql.Reduce(e, valuer)
+		red2 = influxql.Reduce(red, valuer)
+	}); p != nil {
+		return []ev.Finding{{Sig: "panic-time:" + ev.SigSafe(fmt.Sprint(p)), Witness: wit, Detail: fmt.Sprint(p) + "\n" + st, Case: c}}
+	}
+	got := "unreduced:" + red.String()
+	switch r := red.(type) {
+	case *influxql.TimeLiteral:
+		got = fmt.Sprintf("time:%d", r.Val.UnixNano())
+	case *influxql.DurationLiteral:
+		got = fmt.Sprintf("duration:%d", int64(r.Val))
+	case *influxql.BooleanLiteral:
+		got = fmt.Sprintf("bool:%v", r.Val)
+	}
+	var out []ev.Finding
+	shape := fmt.Sprintf("%s(%s,%s)", c09tops[c.Tree.Op], c09tshape(c.Tree.L), c09tshape(c.Tree.R))
+	if got != want.String() && !(strings.HasPrefix(got, "unreduced:") && c.Tree.hasMulDiv()) {
+		out = append(out, ev.Finding{Sig: "time-tree:" + ev.SigSafe(shape) + ":" + strings.SplitN(got, ":", 2)[0], Witness: wit,
+			Detail: fmt.Sprintf("Reduce gives %s, exact arithmetic gives %s", got, want), Case: c, Rank: len(wit)})
+	}
+	if !astx.Equal(astx.Full, red, red2) {
+		out = append(out, ev.Finding{Sig: "time-tree-not-idempotent:" + ev.SigSafe(shape), Witness: wit, Detail: fmt.Sprintf("%s then %s", red, red2), Case: c, Rank: len(wit)})
+	}
+	return out
+}
+
+func c09tshape(n *c09tnode) string {
+	if n.Leaf != "" {
+		return n.Leaf
+	}
+	return fmt.Sprintf("%s(%s,%s)", c09tops[n.Op], c09tshape(n.L), c09tshape(n.R))
+}
+
+// c09trees enumerates every well-typed tree with two or three leaves.
+func c09trees() []*c09tnode {
+	var leaves []*c09tnode
+	for i := range c09tT {
+		leaves = append(leaves, &c09tnode{Leaf: "T", Idx: i})
+	}
+	for i := range c09tD {
+		leaves = append(leaves, &c09tnode{Leaf: "D", Idx: i})
+	}
+	for i := range c09tK {
+		leaves = append(leaves, &c09tnode{Leaf: "K", Idx: i})
+	}
+	var d1, out []*c09tnode
+	for op := range c09tops {
+		for _, l := range leaves {
+			for _, r := range leaves {
+				n := &c09tnode{Op: op, L: l, R: r}
+				if _, ok := n.eval(nil); ok {
+					d1 = append(d1, n)
+				}
+			}
+		}
+	}
+	out = append(out, d1...)
+	for op := range c09tops {
+		for _, in := range d1 {
+			for _, paren := range []bool{false, true} {
+				inner := *in
+				inner.Paren = paren
+				for _, lf := range leaves {
+					for _, n := range []*c09tnode{{Op: op, L: &inner, R: lf}, {Op: op, L: lf, R: &inner}} {
+						if _, ok := n.eval(nil); ok {
+							out = append(out, n)
+						}
+					}
+				}
+			}
+		}
+	}
+	return out
+}
+
 func init() {
 	register(&Check{ID: "C09", Run: c09run, Replay: func(raw json.RawMessage) []ev.Finding {
 		var c c09Case
@@ -419,13 +635,15 @@ func c09run(r *ev.Run) {
 	nops := len(c09ops)
 	var wellTyped, reducedChanged int64
 	run := func(c c09Case) {
-		if c.Time == nil && !c.wellTyped() {
+		if c.Time == nil && c.Tree == nil && !c.wellTyped() {
 			return
 		}
 		n := r.Eval()
 		r.Trans(int64(len(c.Leaves) + len(c.Ops)))
 		var label string
-		if c.Time == nil {
+		if c.Tree != nil {
+			label = fmt.Sprintf("tree|%s|%d", c.Tree.expr().String(), c.Zone)
+		} else if c.Time == nil {
 			e, r1, _ := c.build()
 			label = fmt.Sprintf("%s|%v|%v", e.String(), r1, c.Leaves)
 		} else {
@@ -480,11 +698,18 @@ func c09run(r *ev.Run) {
 			}
 		}
 	}
+	trees := c09trees()
+	parallelFor(len(trees), func(i int) {
+		for z := range c09zones {
+			run(c09Case{Tree: trees[i], Zone: z})
+		}
+	})
+	r.Set("time_trees", len(trees))
 	r.Set("leaf_alphabet_depth1", len(full))
 	r.Set("leaf_alphabet_depth2", len(d2))
 	r.Set("operators", nops)
 	r.Set("time_instants", len(c09instants))
 	r.Set("time_zones", len(c09zones))
-	r.Rule = "all well-typed trees of depth<=2 (leaf, a op b, left and right nested, with and without explicit ParenExpr) over 16 operators; leaves = boundary values of 5 kinds x {literal, variable bound at Reduce time, variable bound at Eval time}; ill-typed trees are skipped by the generator's typing rule and not counted. Plus timestamp/now() ± duration, differences and comparisons over instants x durations x zones. Every counted case is non-trivial (both evaluators run and are compared)."
+	r.Rule = "all well-typed trees of depth<=2 (leaf, a op b, left and right nested, with and without explicit ParenExpr) over 16 operators; leaves = boundary values of 5 kinds x {literal, variable bound at Reduce time, variable bound at Eval time}; ill-typed trees are skipped by the generator's typing rule and not counted. Plus timestamp/now() ± duration, differences and comparisons over instants x durations x zones, and every well-typed tree with two or three leaves over instants, durations and small integers (T±D, D+T, T-T, D±D, D*K, K*D, D/K, comparisons of like kinds; with and without parentheses around the inner node) against exact int64 nanosecond arithmetic. Every counted case is non-trivial (both evaluators run and are compared)."
 	r.Assumptions = []string{"bitwise operators are treated as well-typed on integer/unsigned pairs and on boolean pairs; equality as well-typed on any two numbers or two values of the same kind", "time reference: time.Date(...).UnixNano() arithmetic in int64"}
 }
